@@ -305,9 +305,122 @@ Section May.
       rewrite (must_sound u _ _ d (concrete_upstream_static u c _ Hck) Hd) in N. discriminate.
   Qed.
 
+  (* ---- the state handlers of passthrough nodes (declared for any): the value they hand on
+     is checked against the node's inferred type (repair F-C07f) *)
+
+  Definition hmis (ret : option dyn) (d : dyn) (t : option ty) : bool :=
+    match t with
+    | Some tc => not_asg (match ret with Some r => r | None => d end) tc
+    | None => false
+    end.
+  Definition pre_mismatch (st : gstate) (x : key * dyn) : bool :=
+    match get_node st (fst x) with
+    | Some n => n_pass n && match n_pre n with Some _ => hmis (n_pre_ret n) (snd x) (n_in n) | None => false end
+    | None => false
+    end.
+  (* the value after the pre handler *)
+  Definition after_pre (st : gstate) (x : key * dyn) : dyn :=
+    match get_node st (fst x) with
+    | Some n => match n_pre n, n_pre_ret n with Some _, Some r => r | _, _ => snd x end
+    | None => snd x
+    end.
+  Definition post_mismatch (st : gstate) (x : key * dyn) : bool :=
+    match get_node st (fst x) with
+    | Some n => n_pass n && match n_post n with Some _ => hmis (n_post_ret n) (snd x) (n_out n) | None => false end
+    | None => false
+    end.
+  Definition exec_mismatch (st : gstate) (tasks : list (key * dyn)) : bool :=
+    existsb (pre_mismatch st) tasks ||
+    existsb (fun x => post_mismatch st (fst x, after_pre st x)) tasks.
+
+  Lemma not_asg_asrt : forall d t, not_asg d t = negb (asrt d t).
+  Proof. intros d t. unfold not_asg. rewrite assert_type_assignable. reflexivity. Qed.
+
+  (* the pre phase, exactly *)
+  Lemma pre_all_exact : forall st tasks,
+    compiled_ok u st -> tasks_ok u st tasks ->
+    pre_all asrt st tasks =
+    if existsb (pre_mismatch st) tasks then inl RTypeErr
+    else inr (map (fun x => (fst x, after_pre st x)) tasks).
+  Proof.
+    intros st tasks [I C]. pose proof (inv_nodes _ _ I) as NO.
+    induction tasks as [|[k d] rest IH]; intros HT; [reflexivity|].
+    destruct (HT (k, d) (or_introl eq_refl)) as [[t [It At]] Hn]. simpl in It, At, Hn.
+    cbn [pre_all existsb map]. rewrite (IH (fun x Hx => HT x (or_intror Hx))).
+    set (ex := existsb (pre_mismatch st) rest). set (mp := map (fun x => (fst x, after_pre st x)) rest).
+    clearbody ex mp.
+    unfold pre_res, pre_mismatch, after_pre. cbn [fst snd].
+    unfold has_node in Hn. destruct (get_node st k) as [n|] eqn:G; [|discriminate].
+    destruct (NO k n G) as [[Pp [Pl [Pr _]]] _].
+    destruct (types_of_node st k n NO G) as [Ti _].
+    unfold run_handler. destruct (n_pre n) as [t0|] eqn:Pn.
+    - specialize (Pr t0 eq_refl). destruct (n_pass n) eqn:Ps; cbn [andb orb negb].
+      + subst t0. rewrite assert_any. cbn [negb]. rewrite <- Ti, It. unfold hmis. rewrite not_asg_asrt.
+        destruct (n_pre_ret n) as [r|].
+        * destruct (asrt r t) eqn:A; cbn [negb orb]; [destruct ex; reflexivity | reflexivity].
+        * rewrite At. cbn [negb orb]. destruct ex; reflexivity.
+      + rewrite Ti, Pr in It. inversion It; subst t0. rewrite At. cbn [negb].
+        destruct (n_pre_ret n) as [r|]; destruct ex; reflexivity.
+    - rewrite andb_false_r. cbn [orb]. destruct ex; reflexivity.
+  Qed.
+
+  (* the post phase, exactly *)
+  Lemma collect_exact : forall st t1,
+    compiled_ok u st -> emit_ok u emit st -> hret_ok u st -> tasks_ok u st t1 ->
+    match collect_outs t1 (map (fun t => post_res asrt st (fst t) (node_out asrt emit st t)) t1) with
+    | inl o => o = RTypeErr /\ existsb (post_mismatch st) t1 = true
+    | inr l => existsb (post_mismatch st) t1 = false
+    end.
+  Proof.
+    intros st t1 [I C] EM HR. pose proof (inv_nodes _ _ I) as NO.
+    induction t1 as [|[k d] rest IH]; intros HT; simpl; [reflexivity|].
+    destruct (HT (k, d) (or_introl eq_refl)) as [[t [It At]] Hn]. simpl in It, At, Hn.
+    specialize (IH (fun x Hx => HT x (or_intror Hx))).
+    unfold post_res, node_out, post_mismatch. simpl.
+    unfold has_node in Hn. destruct (get_node st k) as [n|] eqn:G; [|discriminate].
+    destruct (NO k n G) as [[Pp [Pl [_ Po]]] _].
+    destruct (types_of_node st k n NO G) as [Ti To].
+    destruct (n_pass n) eqn:Ps; simpl.
+    - (* passthrough: the value goes through *)
+      assert (On : n_out n = Some t) by (rewrite <- (Pp eq_refl), <- Ti; exact It).
+      unfold run_handler. destruct (n_post n) as [t0|] eqn:Pn.
+      + specialize (Po t0 eq_refl). simpl in Po. subst t0. rewrite assert_any. simpl. rewrite On. unfold hmis. rewrite not_asg_asrt.
+        destruct (asrt (match n_post_ret n with Some r => r | None => d end) t); simpl.
+        * destruct (collect_outs rest _) as [o|l]; exact IH.
+        * split; reflexivity.
+      + destruct (collect_outs rest _) as [o|l]; exact IH.
+    - destruct (Pl eq_refl) as [ti [to [Hi Ho]]]. rewrite Hi. rewrite Ti, Hi in It. inversion It; subst t. rewrite At.
+      unfold run_handler. destruct (n_post n) as [t0|] eqn:Pn.
+      + specialize (Po t0 eq_refl). simpl in Po. rewrite Po in Ho. inversion Ho; subst t0.
+        assert (A : asrt (emit_of emit st k) to = true).
+        { rewrite assert_type_assignable. apply (EM k n to G Ps). rewrite Po. reflexivity. }
+        rewrite A. simpl. destruct (collect_outs rest _) as [o|l]; exact IH.
+      + destruct (collect_outs rest _) as [o|l]; exact IH.
+  Qed.
+
+  Theorem exec_type_error_iff : forall st tasks,
+    compiled_ok u st -> emit_ok u emit st -> hret_ok u st -> tasks_ok u st tasks ->
+    (exec_all asrt emit st tasks = inl RTypeErr <-> exec_mismatch st tasks = true).
+  Proof.
+    intros st tasks CO EM HR HT. unfold exec_all, exec_mismatch.
+    assert (F1 : forallb (fun t => has_node st (fst t)) tasks = true).
+    { apply forallb_forall. intros x Hx. apply (HT x Hx). }
+    rewrite F1; simpl. rewrite (pre_all_exact st tasks CO HT).
+    pose proof (pre_all_safe u st tasks CO HR HT) as PS. rewrite (pre_all_exact st tasks CO HT) in PS.
+    destruct (existsb (pre_mismatch st) tasks); simpl; [split; reflexivity|].
+    set (t1 := map (fun x => (fst x, after_pre st x)) tasks) in *.
+    destruct (collect_safe u emit st t1 CO EM HR PS) as [F _]. rewrite F. simpl.
+    pose proof (collect_exact st t1 CO EM HR PS) as CE.
+    assert (E : existsb (post_mismatch st) t1 = existsb (fun x => post_mismatch st (fst x, after_pre st x)) tasks).
+    { unfold t1. clear. induction tasks as [|x r IH]; simpl; [reflexivity | rewrite IH; reflexivity]. }
+    rewrite <- E. destruct (collect_outs t1 _) as [o|l].
+    - destruct CE as [Eo M]. subst o. rewrite M. split; reflexivity.
+    - rewrite CE. split; discriminate.
+  Qed.
+
   (* ---- the whole run *)
 
-  (* the completed-task lists [next] is applied to during a run *)
+  (* the completed-task lists [next] is applied to during a run, and the task lists of its supersteps *)
   Fixpoint loop_dones (st : gstate) (steps : nat) (tasks : list (key * dyn)) : list (list (key * dyn)) :=
     match steps with
     | O => []
@@ -325,61 +438,94 @@ Section May.
             end
         end
     end.
+  Fixpoint loop_tasks (st : gstate) (steps : nat) (tasks : list (key * dyn)) : list (list (key * dyn)) :=
+    match steps with
+    | O => []
+    | S n =>
+        match tasks with
+        | [] => []
+        | _ =>
+            tasks :: match exec_all asrt emit st tasks with
+                     | inl _ => []
+                     | inr done =>
+                         match next u asrt st done with
+                         | inl _ => []
+                         | inr tasks' => loop_tasks st n tasks'
+                         end
+                     end
+        end
+    end.
   Definition run_dones (st : gstate) (input : dyn) : list (list (key * dyn)) :=
     [(kSTART, input)] :: match next u asrt st [(kSTART, input)] with
                          | inl _ => []
                          | inr tasks => loop_dones st (max_steps st) tasks
                          end.
+  Definition run_tasks (st : gstate) (input : dyn) : list (list (key * dyn)) :=
+    match next u asrt st [(kSTART, input)] with
+    | inl _ => []
+    | inr tasks => loop_tasks st (max_steps st) tasks
+    end.
+
+  Definition mism (st : gstate) (ds ts : list (list (key * dyn))) : Prop :=
+    (exists done, In done ds /\ step_mismatch st done = true) \/
+    (exists tasks, In tasks ts /\ exec_mismatch st tasks = true).
 
   Lemma loop_type_error_iff : forall st steps tasks,
-    compiled_ok u st -> inv2 st -> emit_ok u emit st -> choices_valid st ->
-    (forall x, In x tasks -> task_ok u st x /\ has_node st (fst x) = true) ->
-    (loop u asrt emit st steps tasks = RTypeErr <->
-     exists done, In done (loop_dones st steps tasks) /\ step_mismatch st done = true) /\
-    (forall done, In done (loop_dones st steps tasks) -> forall x, In x done -> done_ok u st x).
+    compiled_ok u st -> inv2 st -> emit_ok u emit st -> hret_ok u st -> choices_valid st ->
+    tasks_ok u st tasks ->
+    (loop u asrt emit st steps tasks = RTypeErr <-> mism st (loop_dones st steps tasks) (loop_tasks st steps tasks)).
   Proof.
-    intros st steps. induction steps as [|n IH]; intros tasks CO I2 EM V HT; simpl.
-    - split; [split; [discriminate | intros [d [[] _]]] | intros d []].
+    intros st steps. induction steps as [|n IH]; intros tasks CO I2 EM HR V HT; simpl.
+    - split; [discriminate | intros [[d [[] _]]|[d [[] _]]]].
     - destruct tasks as [|x rest] eqn:T.
-      + split; [split; [discriminate | intros [d [[] _]]] | intros d []].
+      + split; [discriminate | intros [[d [[] _]]|[d [[] _]]]].
       + rewrite <- T in *.
-        destruct (exec_all_safe u emit st tasks CO EM HT) as [done [E D]]. rewrite E.
-        destruct (next_type_error_iff st done CO I2 D) as [_ [_ N3]]. specialize (N3 V).
-        pose proof (next_safe u st done CO D) as NS.
-        destruct (next u asrt st done) as [o|tasks'] eqn:NX.
-        * split.
+        pose proof (exec_all_safe u emit st tasks CO EM HR HT) as ES.
+        pose proof (exec_type_error_iff st tasks CO EM HR HT) as EI.
+        destruct (exec_all asrt emit st tasks) as [o|done] eqn:EX.
+        * subst o. split; [intros _; right; exists tasks; split; [left; reflexivity | apply EI; reflexivity] | reflexivity].
+        * assert (NE : exec_mismatch st tasks = false).
+          { destruct (exec_mismatch st tasks) eqn:Q; [|reflexivity]. destruct EI as [_ EI]. specialize (EI eq_refl). discriminate. }
+          destruct (next_type_error_iff st done CO I2 ES) as [_ [_ N3]]. specialize (N3 V).
+          pose proof (next_safe u st done CO ES) as NS.
+          destruct (next u asrt st done) as [o|tasks'] eqn:NX.
           -- split.
-             ++ intro L. subst o. exists done. split; [left; reflexivity | apply N3; reflexivity].
-             ++ intros [d0 [[Hd|[]] M]]. subst d0. apply N3 in M. inversion M; reflexivity.
-          -- intros d0 [Hd|[]]. subst d0. exact D.
-        * destruct (IH tasks' CO I2 EM V NS) as [IH1 IH2]. split.
-          -- split.
-             ++ intro L. apply IH1 in L. destruct L as [d0 [Hd M]]. exists d0. split; [right; exact Hd | exact M].
-             ++ intros [d0 [[Hd|Hd] M]].
+             ++ intro L. subst o. left. exists done. split; [left; reflexivity | apply N3; reflexivity].
+             ++ intros [[d0 [[Hd|[]] M]]|[t0 [[Ht|[]] M]]].
+                ** subst d0. apply N3 in M. inversion M; reflexivity.
+                ** subst t0. congruence.
+          -- specialize (IH tasks' CO I2 EM HR V NS). split.
+             ++ intro L. apply IH in L. destruct L as [[d0 [Hd M]]|[t0 [Ht M]]].
+                ** left. exists d0. split; [right; exact Hd | exact M].
+                ** right. exists t0. split; [right; exact Ht | exact M].
+             ++ intros [[d0 [[Hd|Hd] M]]|[t0 [[Ht|Ht] M]]].
                 ** subst d0. apply N3 in M. discriminate.
-                ** apply IH1. exists d0; auto.
-          -- intros d0 [Hd|Hd]; [subst d0; exact D | apply IH2; exact Hd].
+                ** apply IH. left. exists d0; auto.
+                ** subst t0. congruence.
+                ** apply IH. right. exists t0; auto.
   Qed.
 
   Theorem run_type_error_iff : forall st input,
-    compiled_ok u st -> inv2 st -> emit_ok u emit st -> choices_valid st ->
+    compiled_ok u st -> inv2 st -> emit_ok u emit st -> hret_ok u st -> choices_valid st ->
     has_type u input (g_in st) = true ->
-    (run u asrt emit st input = RTypeErr <->
-     exists done, In done (run_dones st input) /\ step_mismatch st done = true).
+    (run u asrt emit st input = RTypeErr <-> mism st (run_dones st input) (run_tasks st input)).
   Proof.
-    intros st input CO I2 EM V HI. unfold run, run_dones.
+    intros st input CO I2 EM HR V HI. unfold run, run_dones, run_tasks.
     assert (D : forall x, In x [(kSTART, input)] -> done_ok u st x).
     { intros x [Hx|[]]. subst x. exists (g_in st). split; [reflexivity | exact HI]. }
     destruct (next_type_error_iff st _ CO I2 D) as [_ [_ N3]]. specialize (N3 V).
     pose proof (next_safe u st _ CO D) as NS.
     destruct (next u asrt st [(kSTART, input)]) as [o|tasks] eqn:NX.
     - split.
-      + intro L. subst o. exists [(kSTART, input)]. split; [left; reflexivity | apply N3; reflexivity].
-      + intros [d0 [[Hd|[]] M]]. subst d0. apply N3 in M. inversion M; reflexivity.
-    - destruct (loop_type_error_iff st (max_steps st) tasks CO I2 EM V NS) as [L1 _]. split.
-      + intro L. apply L1 in L. destruct L as [d0 [Hd M]]. exists d0. split; [right; exact Hd | exact M].
-      + intros [d0 [[Hd|Hd] M]].
+      + intro L. subst o. left. exists [(kSTART, input)]. split; [left; reflexivity | apply N3; reflexivity].
+      + intros [[d0 [[Hd|[]] M]]|[t0 [[] _]]]. subst d0. apply N3 in M. inversion M; reflexivity.
+    - pose proof (loop_type_error_iff st (max_steps st) tasks CO I2 EM HR V NS) as L1. split.
+      + intro L. apply L1 in L. destruct L as [[d0 [Hd M]]|[t0 [Ht M]]].
+        * left. exists d0. split; [right; exact Hd | exact M].
+        * right. exists t0. split; [exact Ht | exact M].
+      + intros [[d0 [[Hd|Hd] M]]|[t0 [Ht M]]].
         * subst d0. apply N3 in M. discriminate.
-        * apply L1. exists d0; auto.
+        * apply L1. left. exists d0; auto.
+        * apply L1. right. exists t0; auto.
   Qed.
 End May.
